@@ -93,9 +93,9 @@ AID_DEC_R = [99999, 100000, -9999, -10000]
 AID_H36_R = [99999, 100000, 87440031, 87440032]
 CHAIN_FULL = ["", "B", "z", "0", "AB", "ABCD"]
 CHAIN_R = ["", "AB"]
-RESN_FULL = ["", "X", "XY", "UNK", "1AB", "ABCD", "ABCDE"]
+RESN_FULL = ["", "X", "XY", "UNK", "1AB", "1A", "ABCD", "ABCDE"]
 RESN_R = ["", "ABCD"]
-NAMES = ["", "C", "CA", "CG1", "CG12", "1", "1H", "1HB", "1HB2", "F", "FE", "FE1", "FE12", "ABCDE", "ABCDEF"]
+NAMES = ["", "C", "CA", "CG1", "CG12", "1", "1H", "1HB", "1HB2", "F", "FE", "FE1", "FE12", "1FE2", "ABCDE", "ABCDEF"]
 ELEMS = ["", "C", "H", "FE", "Fe", "XYZ", "ABCD"]
 NAME_R = [["CG12", "C"], ["CG1", "C"], ["FE", "FE"], ["CA", "XYZ"], ["1HB", "H"], ["ABCDE", "C"], ["", ""]]
 INS_FULL = ["A", "z", "1", "AB", "ABC"]
@@ -110,6 +110,9 @@ BOXES = {
     "wide": (15, 25, 35, 150, 100, 95),
     "near90": (50, 50, 10, 89.95, 90, 90),
     "rot": (10, 20, 30, 90, 90, 90),
+    "rot_tric": (10.5, 20.25, 30.125, 60, 70, 80),        # rotated AND triclinic
+    "big_tric": (9999.999, 9999.999, 9999.999, 60, 70, 80),  # full-width lengths AND oblique angles
+    "rot_big": (9999.999, 1234.5, 99999.99, 90, 90, 90),    # rotated AND widest lengths that fit
     "big": (9999.999, 9999.999, 9999.999, 90, 90, 90),
     "10k": (10000, 1, 1, 90, 90, 90),
     "99999": (1, 99999.99, 1, 90, 90, 90),
@@ -253,7 +256,7 @@ def expected(case, pal):
             e["atom_id"] = atom_ids_of(v, n)
         elif f == "box":
             vec = M.vectors_from_cell(*BOXES[v])
-            if v == "rot":
+            if v.startswith("rot"):
                 vec = M.rotate_rows(M.rotate_rows(vec, 2, 33.0), 0, 21.0)
             e["box"] = [[f32(x) for x in row] for row in vec]
         else:
@@ -1208,6 +1211,12 @@ CCD_CASES = {
     "ala_lig": ([["A", 1, "", "ALA", False, a, a[0]] for a in ("N", "CA", "C", "O", "CB")]
                 + [["A", 9, "", "LIG", True, a, a[0]] for a in ("C1", "C2")],
                 [(0, 1, 1), (1, 2, 1), (2, 3, 2), (1, 4, 1), (4, 5, 1), (5, 6, 6)]),
+    "dinucleotide": ([["A", 1, "", "A", False, a, a[0]] for a in ("P", "OP1", "O5'", "C5'", "O3'")]
+                     + [["A", 2, "", "A", False, a, a[0]] for a in ("P", "OP1", "O5'", "C5'", "O3'")],
+                     [(0, 1, 2), (0, 2, 1), (2, 3, 1), (3, 4, 1), (5, 6, 2), (5, 7, 1), (7, 8, 1), (8, 9, 1), (4, 5, 1)]),
+    "dinucleotide_nolink": ([["A", 1, "", "DA", False, a, a[0]] for a in ("P", "O5'", "C5'", "O3'")]
+                            + [["A", 2, "", "DA", False, a, a[0]] for a in ("P", "O5'", "C5'", "O3'")],
+                            [(0, 1, 1), (1, 2, 1), (2, 3, 1), (4, 5, 1), (5, 6, 1), (6, 7, 1)]),
     "ion": ([["A", 1, "", "ALA", False, "O", "O"], ["A", 7, "", "NA", True, "NA", "NA"]], [(0, 1, 8)]),
 }
 
@@ -1245,11 +1254,22 @@ def bond_atoms(case, btypes):
     if what == "ccd":
         atoms, bonds = CCD_CASES[case["name"]]
         return [list(a) for a in atoms], list(bonds)
+    if what == "btype":  # every bond type value with every seed
+        ks = "hh" if case["style"] == "hetero" else "ab"
+        atoms = [list(KINDS[k]) + ["C%d" % (p + 1), "C"] for p, k in enumerate(ks)]
+        return atoms, [(0, 1, case["t"])]
+    if what == "solvent":  # every residue name that is (or looks like) a solvent name
+        rn = case["res_name"]
+        atoms = [["A", 5, "", rn, True, "O", "O"], ["A", 5, "", rn, True, "H1", "H"], ["A", 1, "", "UNX", False, "C1", "C"]]
+        return atoms, [(0, 1, 1), (0, 2, 1)]
     raise ValueError(case)
 
 
+SOLVENT_NAMES = ("HOH", "SOL")  # residue names the library documents as solvent
+
+
 def is_water(a):
-    return a[3] == "HOH"
+    return a[3] in SOLVENT_NAMES
 
 
 def pair_class(a, b, degree_gt4):
@@ -1278,9 +1298,10 @@ def bond_model(atoms, bonds):
             pr = frozenset((i, j))
             same_res = a[:4] == b[:4]
             ccdt = ccd_bonds(a[3]).get(frozenset((a[5], b[5]))) if same_res else None
+            lo, hi = (a, b) if a[1] < b[1] else (b, a)
             link = (not same_res and a[0] == b[0] and abs(a[1] - b[1]) == 1
-                    and {a[3], b[3]} <= {"ALA", "GLY", "SER"}
-                    and ((a[5], b[5]) == ("C", "N") if a[1] < b[1] else (b[5], a[5]) == ("C", "N")))
+                    and (({a[3], b[3]} <= {"ALA", "GLY", "SER"} and (lo[5], hi[5]) == ("C", "N"))
+                         or ({a[3], b[3]} <= {"A", "DA"} and (lo[5], hi[5]) == ("O3'", "P"))))
             if pr in inp:
                 het = (a[4] and not is_water(a)) or (b[4] and not is_water(b))
                 inter = a[0] != b[0] or a[1] != b[1] or a[2] != b[2]
@@ -1365,6 +1386,14 @@ def bond_cases(shard):
                                    "ids": ids, "h36": h36, "stack": stack}
                 for name in CCD_CASES:
                     yield {"kind": "bonds", "what": "ccd", "name": name, "ids": ids, "h36": h36, "stack": stack}
+        for h36 in (False, True):
+            for stack in (False, True):
+                for t in range(10):
+                    for style in ("hetero", "inter"):
+                        yield {"kind": "bonds", "what": "btype", "t": t, "style": style, "ids": "default", "h36": h36,
+                               "stack": stack}
+                for rn in ("HOH", "SOL", "WAT", "DOD", "H2O"):
+                    yield {"kind": "bonds", "what": "solvent", "res_name": rn, "ids": "default", "h36": h36, "stack": stack}
 
 
 def run_bonds(shard, ctx):
@@ -1633,6 +1662,8 @@ REUSE_ITEMS = {
     "s2n4c": {"m": 2, "n": 4, "stack": True, "bonds": "star", "bfac": True},
     "a4c": {"m": 1, "n": 4, "stack": False, "bonds": "chain"},
     "a2w": {"m": 1, "n": 2, "stack": False, "wrap_ids": True},  # decimal mode, ids beyond the columns: documented wrap
+    "s3n3": {"m": 3, "n": 3, "stack": True},            # same path as s2n3 with one model more
+    "a4c2": {"m": 1, "n": 4, "stack": False, "bonds": "chain_short"},  # same path as a4c with one CONECT record fewer
 }
 REUSE_BAD = {
     "bad_chain5": {"m": 1, "n": 5, "stack": False, "bad": "chain"},
@@ -1683,8 +1714,9 @@ def reuse_build(name):
     arr = build(e, spec["stack"])
     if spec.get("bonds") == "star":
         arr.bonds = struc.BondList(n, np.array([[0, q, 1] for q in range(1, n)], dtype=np.int64))
-    elif spec.get("bonds") == "chain":
-        arr.bonds = struc.BondList(n, np.array([[q, q + 1, 2] for q in range(n - 1)], dtype=np.int64))
+    elif spec.get("bonds") in ("chain", "chain_short"):
+        last = n - 1 if spec["bonds"] == "chain" else n - 2
+        arr.bonds = struc.BondList(n, np.array([[q, q + 1, 2] for q in range(last)], dtype=np.int64))
     return arr, bool(spec.get("h36"))
 
 
@@ -1715,7 +1747,17 @@ REUSE_GETTERS = [
     ("get_b_factor_all", lambda f: f.get_b_factor()),
     ("get_b_factor_first", lambda f: f.get_b_factor(model=1)),
     ("get_remark", lambda f: f.get_remark(350)),
+    # serialisations (may cache counts / positions); trailing blanks are not significant (read() pads)
+    ("write", lambda f: _written_text(f)),
+    ("str", lambda f: [ln.rstrip() for ln in str(f).split("\n")]),
+    ("get_space_group", lambda f: tuple(f.get_space_group())),
 ]
+
+
+def _written_text(f):
+    buf = io.StringIO()
+    f.write(buf)
+    return [ln.rstrip() for ln in buf.getvalue().split("\n")]
 
 
 def reuse_observe(f):
@@ -1744,13 +1786,21 @@ def reuse_ref(name):
 
 
 def reuse_shards(tier):
-    out = [{"kind": "reuse", "depth": 2}]
+    out = [{"kind": "reuse", "depth": 2}, {"kind": "reuse", "depth": "aba"}]
     if tier == "thorough":
         out += [{"kind": "reuse", "depth": 3, "first": x} for x in REUSE_ITEMS]
     return out
 
 
 def reuse_cases(shard):
+    if shard["depth"] == "aba":
+        # there and back: content of another size and the original size again, getters in between
+        for origin in ("set", "read"):
+            for x in REUSE_ITEMS:
+                for y in REUSE_ITEMS:
+                    if x != y:
+                        yield {"kind": "reuse", "ops": [[origin, x], ["probe"], ["set", y], ["probe"], ["set", x]]}
+        return
     seconds = [["set", y] for y in REUSE_ITEMS] + [["refuse", z] for z in REUSE_BAD]
     firsts = [x for x in REUSE_ITEMS if shard.get("first") in (None, x)]
     for origin in ("set", "read"):
@@ -1866,7 +1916,7 @@ EMPTY_SHAPES = [["array", 1, 0], ["stack", 1, 0], ["stack", 2, 0], ["stack", 0, 
 
 
 def audit_shards(tier):
-    out = [{"kind": "audit", "what": w} for w in ("models", "alias", "flavours", "edge")]
+    out = [{"kind": "audit", "what": w} for w in ("models", "alias", "flavours", "edge", "derived")]
     out.append({"kind": "audit", "what": "models_big"})
     return out
 
@@ -1909,6 +1959,11 @@ def audit_cases(shard, tier):
             for h in (False, True):
                 for var in flavour_variants():
                     yield {"kind": "audit", "what": "flavours", "stack": stack, "h36": h, "var": var}
+    elif w == "derived":
+        for name in REUSE_ITEMS:
+            for d in DERIVATIONS:
+                if derivation_applies(name, d):
+                    yield {"kind": "audit", "what": "derived", "item": name, "how": d}
     elif w == "edge":
         for sh in EMPTY_SHAPES:
             for h in (False, True):
@@ -2237,6 +2292,24 @@ def run_audit_case(ctx, case, count=False):
             fail("PDBFile.set_structure", "lines_depend_on_array_flavour", klass,
                  "same values in another array representation give another file", ref_lines[k:k + 2], lines[k:k + 2])
         return
+    # ---- DERIVED INPUTS: structures handed out by the library itself, written like directly built ones -----------
+    if what == "derived":
+        if count:
+            ctx.count("accepted")
+        got, want = derived_lines(case["item"], case["how"])
+        ctx.outcome(("derived", case["item"], case["how"], tuple(got) if isinstance(got, list) else got))
+        if isinstance(got, str) and got.startswith("derivation_failed"):
+            ctx.count("derivation_not_offered_by_container")  # e.g. AtomArray[...]: indexing is property C01's business
+            return
+        if isinstance(got, str):
+            return fail("PDBFile.set_structure", got, "derived_" + case["how"], "structure derived by the library refused / not derivable",
+                        "file", got)
+        if got != want:
+            k = next((i for i, (a, b) in enumerate(zip(got, want)) if a != b), min(len(got), len(want)))
+            return fail("PDBFile.set_structure", "lines_depend_on_derivation", "derived_" + case["how"],
+                        "a structure obtained through %s gives another file than the same structure built directly" % case["how"],
+                        want[k:k + 3], got[k:k + 3])
+        return
     # ---- EMPTY PIECES ------------------------------------------------------------------------------------------
     if what == "empty":
         kind, m, n = case["shape"]
@@ -2278,10 +2351,22 @@ def run_audit_case(ctx, case, count=False):
         try:
             if path == "copy":
                 g = f.copy()
+                if g is f or g.lines is f.lines:
+                    return fail("PDBFile.copy", "result_is_operand", "io_copy", "copy() returned the file itself / shares its line list",
+                                "new object", "same object")
+                g.lines.append("REMARK 999 edit of the copy")
+                if [str(x) for x in f.lines] != ref_lines:
+                    return fail("PDBFile.copy", "result_shares_state_with_operand", "io_copy", "editing the copy changed the original",
+                                ref_lines[-2:], [str(x) for x in f.lines][-2:])
+                g.lines.pop()
                 obs = reuse_observe(g)
-                if any(st == "exc" for _, st, _ in obs) and not all(st == "exc" or gname == "get_remark" for gname, st, _ in obs):
-                    pass
-                if all(st == "exc" for gname, st, _ in obs if gname != "get_remark"):
+                indexed = ("get_model_count", "get_structure", "get_coord", "get_b_factor")  # need the line indices
+                if all(st == "exc" for gname, st, _ in obs if gname.startswith(indexed)):
+                    # unspecified for C07: copy() carries the lines but not the indices; what works must still agree
+                    for (gname, st, val), (_, rst, rval) in zip(obs, ref_obs):
+                        if not gname.startswith(indexed) and (st, val) != (rst, rval):
+                            return fail("PDBFile.copy", "stale_" + gname, "io_copy", "%s of the copy differs" % gname,
+                                        [rst, rval[:300]], [st, val[:300]])
                     ctx.outcome(("io", name, path, "copy unusable"))
                     ctx.count("copy_getters_raise")
                     return
@@ -2318,3 +2403,172 @@ def run_audit_case(ctx, case, count=False):
                             "%s after write()/read() differs from the object that was written" % gname, [rst, rval[:300]], [st, val[:300]])
         return
     raise ValueError(case)
+
+
+# ---------------------------------------------------------------------------
+# derived inputs (second audit, dimension E)
+# ---------------------------------------------------------------------------
+DERIVATIONS = ["copy", "slice_all", "ellipsis", "strided", "reversed", "perm", "mask", "mask_all", "index_list", "tail",
+               "concatenate", "plus", "stack_model", "stack_last_model", "stack_slice1", "stack_models_rev", "stack_atoms",
+               "stack_of_arrays", "from_template", "readback_all", "readback_first", "readback_twice"]
+
+
+def derivation_applies(name, how):
+    spec = REUSE_ITEMS[name]
+    if how.startswith("stack_") and how != "stack_of_arrays":
+        return spec["stack"]
+    if how in ("stack_of_arrays", "from_template"):
+        return not spec["stack"] and not spec.get("box")
+    if how in ("perm", "reversed", "concatenate", "plus"):
+        return not spec.get("big_ids") and not spec.get("wrap_ids")  # keep explicit serial numbers meaningful
+    return True
+
+
+def _atom_index(how, n):
+    return {
+        "strided": list(range(0, n, 2)), "reversed": list(range(n - 1, -1, -1)),
+        "perm": [(p * 2 + 1) % n for p in range(n)] if n % 2 else list(range(1, n)) + [0],
+        "mask": [p for p in range(n) if p != 1] if n > 1 else [0], "mask_all": list(range(n)),
+        "index_list": [n - 1, 0] if n > 1 else [0], "tail": list(range(n // 2, n)), "stack_atoms": list(range(0, n, 2)),
+    }[how]
+
+
+def _lines_of(arr, h36):
+    from biotite.structure.io.pdb import PDBFile
+
+    f = PDBFile()
+    f.set_structure(arr, hybrid36=h36)
+    lines = [str(x) for x in f.lines]
+    pairs = set()
+    for ln in lines:
+        if ln.startswith("CONECT"):
+            c, ps = M.split_conect_line(ln)
+            pairs |= {frozenset((c.strip(), q.strip())) for q in ps}
+    return [ln for ln in lines if not ln.startswith("CONECT")] + sorted("CONECT " + "-".join(sorted(p)) for p in pairs)
+
+
+def derived_lines(name, how):
+    """(lines from the derived object, lines from the directly built equivalent); CONECT as a sorted pair list."""
+    import biotite.structure as struc
+    from biotite.structure.io.pdb import PDBFile
+
+    spec = REUSE_ITEMS[name]
+    base, h36 = reuse_build(name)
+    n, m = spec["n"], spec["m"]
+    direct, _ = reuse_build(name)  # second, independent instance: the expected object is assembled from its arrays
+    try:
+        if how == "copy":
+            d, x = base.copy(), direct
+        elif how == "slice_all":
+            d, x = base[..., :], direct
+        elif how == "ellipsis":
+            d, x = base[...], direct
+        elif how in ("strided", "reversed", "perm", "mask", "mask_all", "index_list", "tail", "stack_atoms"):
+            idx = _atom_index(how, n)
+            if how == "strided" or how == "stack_atoms":
+                d = base[..., ::2]
+            elif how == "reversed":
+                d = base[..., ::-1]
+            elif how in ("mask", "mask_all"):
+                d = base[..., np.array([p in idx for p in range(n)])]
+            elif how == "tail":
+                d = base[..., n // 2:]
+            elif how == "index_list":
+                d = base[..., idx]
+            else:
+                d = base[..., np.array(idx)]
+            x = rebuild_selected(direct, idx, list(range(m)) if spec["stack"] else None)
+        elif how in ("concatenate", "plus"):
+            d = struc.concatenate([base, base]) if how == "concatenate" else base + base
+            x = rebuild_selected(direct, list(range(n)) * 2, list(range(m)) if spec["stack"] else None, repeat=True)
+        elif how == "stack_model":
+            d, x = base[0], rebuild_selected(direct, list(range(n)), 0)
+        elif how == "stack_last_model":
+            d, x = base[-1], rebuild_selected(direct, list(range(n)), m - 1)
+        elif how == "stack_slice1":
+            d, x = base[m - 1:m], rebuild_selected(direct, list(range(n)), [m - 1])
+        elif how == "stack_models_rev":
+            d, x = base[::-1], rebuild_selected(direct, list(range(n)), list(range(m - 1, -1, -1)))
+        elif how == "stack_of_arrays":
+            second = base.copy()
+            second.coord = second.coord + np.float32(2.5)
+            d = struc.stack([base, second])
+            x = rebuild_selected(direct, list(range(n)), None, extra_model=np.float32(2.5))
+        elif how == "from_template":
+            d = struc.from_template(base, np.stack([base.coord, base.coord + np.float32(2.5)]))
+            x = rebuild_selected(direct, list(range(n)), None, extra_model=np.float32(2.5))
+        elif how.startswith("readback"):
+            f = PDBFile()
+            f.set_structure(base, hybrid36=h36)
+            wb = bool(spec.get("bonds"))
+            g = PDBFile.read(io.StringIO("\n".join(str(v) for v in f.lines) + "\n"))
+            d = g.get_structure(extra_fields=EXTRA, include_bonds=wb) if how != "readback_first" else \
+                g.get_structure(model=1, extra_fields=EXTRA, include_bonds=wb)
+            if how == "readback_twice":
+                f2 = PDBFile()
+                f2.set_structure(d, hybrid36=h36)
+                d = PDBFile.read(io.StringIO("\n".join(str(v) for v in f2.lines) + "\n")).get_structure(
+                    extra_fields=EXTRA, include_bonds=wb)
+            if how == "readback_first":
+                x = rebuild_selected(direct, list(range(n)), 0 if spec["stack"] else None)
+            else:
+                x = direct if spec["stack"] else rebuild_selected(direct, list(range(n)), None, as_stack=True)
+        else:
+            raise ValueError(how)
+    except Exception as e:  # noqa: BLE001
+        return "derivation_failed_" + type(e).__name__, None
+    want = _lines_of(x, h36)
+    try:
+        got = _lines_of(d, h36)
+    except Exception as e:  # noqa: BLE001
+        return "unexpected_" + type(e).__name__, want
+    if how.startswith("readback") and spec.get("wrap_ids"):
+        # the ids came back wrapped; writing them again gives the same text as writing the unwrapped ones
+        pass
+    return got, want
+
+
+def rebuild_selected(src, idx, models, repeat=False, extra_model=None, as_stack=False):
+    """Directly constructed structure holding atoms idx (and models) of src: new contiguous arrays, new BondList."""
+    import biotite.structure as struc
+
+    is_stack = isinstance(src, struc.AtomArrayStack)
+    n = len(idx)
+    coord = np.asarray(src.coord)
+    if is_stack:
+        if isinstance(models, int):
+            out = struc.AtomArray(n)
+            out.coord = np.array(coord[models][idx], dtype=np.float32)
+        else:
+            out = struc.AtomArrayStack(len(models), n)
+            out.coord = np.array(coord[models][:, idx], dtype=np.float32)
+    elif extra_model is not None:
+        out = struc.AtomArrayStack(2, n)
+        out.coord = np.array(np.stack([coord[idx], coord[idx] + extra_model]), dtype=np.float32)
+    elif as_stack:
+        out = struc.AtomArrayStack(1, n)
+        out.coord = np.array(coord[idx][None], dtype=np.float32)
+    else:
+        out = struc.AtomArray(n)
+        out.coord = np.array(coord[idx], dtype=np.float32)
+    for cat in src.get_annotation_categories():
+        out.set_annotation(cat, np.array(src.get_annotation(cat)[idx].tolist(), dtype=src.get_annotation(cat).dtype))
+    if src.box is not None:
+        box = np.asarray(src.box)
+        if is_stack:
+            out.box = np.array(box[models], dtype=np.float32)
+        elif isinstance(out, struc.AtomArrayStack):
+            out.box = np.array(np.repeat(box[None], out.stack_depth(), axis=0), dtype=np.float32)
+        else:
+            out.box = np.array(box, dtype=np.float32)
+    if src.bonds is not None:
+        rows = []
+        old = [tuple(int(v) for v in r) for r in src.bonds.as_array()]
+        if repeat:
+            half = n // 2
+            rows = [[i, j, t] for i, j, t in old] + [[i + half, j + half, t] for i, j, t in old]
+        else:
+            pos = {o: k for k, o in enumerate(idx)}
+            rows = [[pos[i], pos[j], t] for i, j, t in old if i in pos and j in pos]
+        out.bonds = struc.BondList(n, np.array(rows, dtype=np.int64).reshape(-1, 3))
+    return out
